@@ -40,3 +40,73 @@ def src_dict(s):
             "err_peak_flux", "err_int_flux", "err_a", "err_b", "err_pa", "background", "local_rms", "psf_a", "psf_b", "psf_pa",
             "residual_mean", "residual_std", "ra_str", "dec_str", "uuid"]
     return {k: getattr(s, k, None) for k in keys}
+
+
+# ---------------------------------------------------------------------------------------------------------------
+# scene alphabet: island archetypes placed on fixed slots
+# ---------------------------------------------------------------------------------------------------------------
+CD = 10.0 / 3600
+BEAM_PX = (4.0, 3.0, 20.0)
+SCENE_SHAPE = (128, 120)
+SLOTS = [(40.0, 38.0), (88.0, 82.0), (38.0, 90.0)]
+ARCHETYPES = ["point", "extended", "blend2", "blend3", "tiny", "small", "negative", "edge", "nanblock"]
+RMS = 0.01
+
+
+def scene_header(shape=SCENE_SHAPE, proj="SIN", crval=(215.0, -33.0)):
+    return wz.make_header(proj, crval, CD, shape, beam=(BEAM_PX[0] * CD, BEAM_PX[1] * CD, BEAM_PX[2]))
+
+
+def archetype_sources(name, hdr, slot, jitter=(0.0, 0.0)):
+    """-> (list of source dicts, list of post-render edits)"""
+    r0, c0 = slot[0] + jitter[0], slot[1] + jitter[1]
+    S = lambda r, c, p, a, b, pa: skygauss.source_at_pixel(hdr, r, c, p, a, b, pa)
+    if name == "point":
+        return [S(r0 + 0.3, c0 - 0.2, 1.0, 4.0, 3.0, 20.0)], []
+    if name == "extended":
+        return [S(r0 - 0.4, c0 + 0.1, 0.8, 9.0, 5.0, -40.0)], []
+    if name == "blend2":
+        return [S(r0, c0, 1.0, 4.4, 3.2, 10.0), S(r0 + 4.5, c0 + 3.5, 0.7, 4.2, 3.1, 60.0)], []
+    if name == "blend3":
+        return [S(r0, c0, 1.0, 4.4, 3.2, 10.0), S(r0 + 5.0, c0 + 2.0, 0.8, 4.2, 3.1, 60.0), S(r0 + 1.0, c0 + 6.0, 0.6, 4.6, 3.3, -30.0)], []
+    if name == "tiny":
+        return [], [("spike", int(r0), int(c0), 0.09)]
+    if name == "small":
+        return [S(r0 + 0.1, c0 + 0.2, 0.058, 4.0, 3.0, 20.0)], []
+    if name == "negative":
+        return [S(r0 - 0.2, c0 + 0.4, -1.0, 5.0, 3.5, 70.0)], []
+    if name == "edge":
+        return [S(1.2, c0, 0.9, 4.5, 3.2, 0.0)], []
+    if name == "nanblock":
+        return [S(r0, c0, 1.0, 6.0, 4.0, 45.0)], [("nan", int(r0) + 1, int(r0) + 4, int(c0) - 6, int(c0) + 7)]
+    raise ValueError(name)
+
+
+def build_scene(names, hdr=None, shape=SCENE_SHAPE, jitter=(0.0, 0.0)):
+    hdr = hdr or scene_header(shape)
+    srcs, edits = [], []
+    for name, slot in zip(names, SLOTS):
+        s, e = archetype_sources(name, hdr, slot, jitter)
+        srcs += s
+        edits += e
+    img = skygauss.render(hdr, shape, srcs)
+    for e in edits:
+        if e[0] == "spike":
+            img[e[1], e[2]] += e[3]
+        elif e[0] == "nan":
+            img[e[1]:e[2], e[3]:e[4]] = np.nan
+    return hdr, img, srcs
+
+
+def grid_scene(n_side, shape, hdr=None, spacing=None):
+    """n_side x n_side isolated sources"""
+    hdr = hdr or scene_header(shape)
+    sp = spacing or (shape[0] / (n_side + 0.5))
+    srcs = []
+    k = 0
+    for i in range(n_side):
+        for j in range(n_side):
+            srcs.append(skygauss.source_at_pixel(hdr, (i + 0.75) * sp + 0.13 * (k % 5), (j + 0.75) * sp * shape[1] / shape[0] + 0.21 * (k % 3),
+                                                 0.5 + 0.01 * k, 4.0 + 0.2 * (k % 4), 3.0 + 0.1 * (k % 3), -80.0 + 7.0 * k % 170))
+            k += 1
+    return hdr, skygauss.render(hdr, shape, srcs), srcs
